@@ -546,7 +546,8 @@ PROPS.update({
         theorems=[('DeriveExModel.Props.Tables', ['DX.trait_table_model', 'DX.trait_table_complete']), (CMP + 'C16', ['DX.output_shape', 'DX.attr_output_nonempty', 'DX.derive_rejects_with_one_error',
                                  'DX.core_error_single', 'DX.deterministic', 'DX.struct_entry_nonempty', 'DX.enum_entry_nonempty',
                                  'DX.entry_answered', 'DX.cmp_render_nonempty', 'DX.ops_render_nonempty',
-                                 'DX.attr_is_item_then_core_struct', 'DX.attr_is_item_then_core_enum'])],
+                                 'DX.attr_is_item_then_core_struct', 'DX.attr_is_item_then_core_enum']),
+                  (CMP + 'C16Bal', ['DX.attr_output_balanced', 'DX.derive_output_balanced', 'DX.bal_iff', 'DX.scan_append'])],
         l1=[('wild', 5000, 200000), ('strip', 2000, 50000), ('impl', 2000, 50000), ('cmpWild', 2000, 50000), ('other', 500, 5000)],
         labels=r'.',
         kinds=('panic', 'nondet', 'parse', 'roundtrip'),
